@@ -123,6 +123,10 @@ class Design:
             m.conns[iname] = {}
             for p, x in conns.items():
                 m.conns[iname][p] = x
+            if k == "arr" and how == "mul_keep":
+                # `n * unit` of a connected instance `unit`, which is then added in its own right
+                # (as `<iname>_t`): the array copies the connections, the unit keeps them
+                self.apply(["inst", op[1], iname + "_t", target, "add", dict(conns)])
         elif k == "reinst":
             # an instance name assigned again: the new instance replaces the old one
             _, mid, iname, target, how, conns = op
